@@ -71,6 +71,9 @@ def base_outcome(tr, extra_sig=()):
     for k_, v_ in flags.items():
         if v_:
             out.probes["world:" + k_] = 1
+    if getattr(tr.ctx, "intervention_late", False):
+        out.probes["intervention_not_at_its_interruption"] = 1
+        out.drop_verdict = "operator intervention could not be made at its interruption point (the scheduler was not asked in that period)"
     return out
 
 
